@@ -400,7 +400,43 @@ def bounded(rep, tier):
     rep.bounded_rule = 'queries over join kinds, ordering with NULLS, set operations, grouping, expressions, CASE, windows, sub-queries, CTE: original text vs sqlite rendering executed on sqlite3 (4 small tables with NULLs and duplicates); ordered comparison when the query orders'
 
 
+def stateless_obligation(rep, prop):
+    """a renderer object keeps no state between calls: outside __init__ no method stores to / mutates an attribute of self (so the text rendered for a
+    tree cannot depend on what the same renderer rendered before)"""
+    from vlib import frames
+    sites = frames.self_state_writes(RENDER, 'SqlalchemyRender')
+    oid = f'{prop}.stateless'
+    clause = 'SqlalchemyRender methods other than __init__ do not write attributes of self (no per-renderer caches or modes)'
+    if not sites:
+        rep.proved(oid, 'frames', 'no store to / mutation of self.* outside __init__', function=f'{RENDER}:SqlalchemyRender', clause=clause)
+    else:
+        rep.failed(oid, 'frames', f'per-renderer state written at run time: {[ (s_.where, s_.text) for s_ in sites][:3]}', function=f'{RENDER}:SqlalchemyRender', clause=clause,
+                   replay=replay_reused_renderer())
+
+
+def replay_reused_renderer():
+    """history witness: statements rendered by one renderer vs each rendered by a fresh renderer"""
+    from mindsdb_sql import parse_sql
+    from mindsdb_sql.render.sqlalchemy_render import SqlalchemyRender
+    seqs = [['INSERT INTO t (a, b) VALUES (1, 2)', 'INSERT INTO t (b, a) VALUES (10, 20)', 'INSERT INTO t (b) VALUES (7)', 'UPDATE t SET b = 1 WHERE a = 2', 'DELETE FROM t WHERE b = 3'],
+            ['SELECT 1, 1.0, true', 'SELECT 1.0, 1, 2', 'SELECT true, 1'], ['SELECT `Order Id` FROM t', 'SELECT a AS `Order Id` FROM `Order Id`'],
+            ["SELECT 'a''b', 'c'", "SELECT 'c', 'a''b' FROM t WHERE x = 'c'"]]
+    for dn in ('mysql', 'postgresql', 'sqlite', 'mssql'):
+        for seq in seqs:
+            shared = SqlalchemyRender(dn)
+            for i, sql in enumerate(seq):
+                try:
+                    want = SqlalchemyRender(dn).get_string(parse_sql(sql), with_failback=False)
+                    got = shared.get_string(parse_sql(sql), with_failback=False)
+                except Exception:
+                    continue
+                if got != want:
+                    return {'input': f'[{dn}] {seq[:i + 1]}', 'dialect': 'mindsdb', 'fires': True, 'observed': f'after {seq[:i]} the renderer gives `{" ".join(got.split())}`', 'expected': f'`{" ".join(want.split())}` (fresh renderer)'}
+    return {'input': 'statement sequences on one renderer', 'dialect': 'mindsdb', 'fires': False, 'observed': 'same text as a fresh renderer'}
+
+
 def check(rep, tier):
+    stateless_obligation(rep, 'C06')
     rep.dropped = 'nothing is extracted: the real prepare_select / to_expression are run on every element of each finite decision domain; SQLAlchemy element trees are inspected'
     rep.assume('SQLAlchemy element semantics (Join.isouter/full; desc/nulls_first/nulls_last modifiers; CompoundSelect.keyword; operator objects) as documented',
                'the domains (join_type strings, operator tokens) are read from the grammars/corpus of the current tree',
